@@ -1,5 +1,6 @@
-/* Vocabulary of unit `reader` (lib/lha_reader.c): arenas, ghost state, recording stubs for every external
-   module, representation-invariant macros.  Included by h_reader.c before the woven lha_reader.c. */
+/* Vocabulary of unit `reader` (lib/lha_reader.c): arenas, ghost state (views of the external modules that the
+   recording stubs in h_reader.c maintain), representation-invariant and contract macros.  Included by h_reader.c
+   before the woven lha_reader.c, whose contract clauses (contracts/lib/lha_reader.c.spec) use these names. */
 #ifndef VG_READER_H
 #define VG_READER_H
 #include "vg_common.h"
@@ -213,8 +214,7 @@ int    vg_refX0;               /* entry value of vg_ref[vg_X] */
 	  /* the link IS made now: never for a dangerous link met in the archive (any '..' position vg_X); nothing is deferred */ \
 	  (vg_F.symlinks != (SL0) ==> (!((T) == CURR_FILE_NORMAL && (vg_tgt[0] == '/' || VG_COMP(vg_X))) && \
 	        vg_F.symlink_path == VG_XS_NAME(FN) && vg_F.symlink_target == (char *) vg_tgt && (R) == vg_F.symlink_r && \
-	        vg_F.fopens == (FO0) && vg_rd.deferred_symlinks == (HEAD0) && vg_ref[0] == (REF0) && vg_addref_calls == (AR0))))) && \
-	vg_F.mkdirs - vg_F.mkdirs == 0)
+	        vg_F.fopens == (FO0) && vg_rd.deferred_symlinks == (HEAD0) && vg_ref[0] == (REF0) && vg_addref_calls == (AR0))))))
 
 /* ---- what extracting the current member (pool header 0, entry type NORMAL) means, by kind of member; shared by the
    contracts of extract_normal and lha_reader_extract.  Entry values: MK0 mkdir calls, OP0 decoder opens, then as VG_XS_POST. */
